@@ -3,6 +3,7 @@ package main
 import (
 	"fmt"
 	"go/ast"
+	"go/constant"
 	"go/token"
 	"go/types"
 	"sort"
@@ -74,6 +75,7 @@ type eoEngine struct {
 	recv   *types.TypeName
 	loops  map[ast.Stmt]*eoLoop
 	orig   map[types.Object][]string // slice parameter -> origins of the lists passed at call sites
+	origFn map[types.Object][]string // ... and the functions containing those call sites (parallel to orig)
 	cases  []Obligation
 	counts int
 }
@@ -112,25 +114,66 @@ func eoLoopDir(info *types.Info, f *ast.ForStmt) (v types.Object, dir string) {
 		return nil, "?"
 	}
 	v = info.Defs[id]
-	post, ok := f.Post.(*ast.IncDecStmt)
+	// step: i++ / i-- / i += c / i -= c / i = i + c / i = i - c (c a positive constant)
+	step := 0
+	isV := func(e ast.Expr) bool {
+		id, ok := ast.Unparen(e).(*ast.Ident)
+		return ok && info.Uses[id] == v
+	}
+	posConst := func(e ast.Expr) bool {
+		tv, ok := info.Types[e]
+		return ok && tv.Value != nil && constant.Sign(tv.Value) > 0
+	}
+	switch post := f.Post.(type) {
+	case *ast.IncDecStmt:
+		if isV(post.X) {
+			if post.Tok == token.INC {
+				step = 1
+			} else {
+				step = -1
+			}
+		}
+	case *ast.AssignStmt:
+		if len(post.Lhs) == 1 && len(post.Rhs) == 1 && isV(post.Lhs[0]) {
+			switch post.Tok {
+			case token.ADD_ASSIGN:
+				if posConst(post.Rhs[0]) {
+					step = 1
+				}
+			case token.SUB_ASSIGN:
+				if posConst(post.Rhs[0]) {
+					step = -1
+				}
+			case token.ASSIGN:
+				if be, ok := ast.Unparen(post.Rhs[0]).(*ast.BinaryExpr); ok && isV(be.X) && posConst(be.Y) {
+					if be.Op == token.ADD {
+						step = 1
+					} else if be.Op == token.SUB {
+						step = -1
+					}
+				}
+			}
+		}
+	}
+	if step == 0 {
+		return v, "?"
+	}
+	cond, ok := ast.Unparen(f.Cond).(*ast.BinaryExpr)
 	if !ok {
 		return v, "?"
 	}
-	if pid, ok := post.X.(*ast.Ident); !ok || info.Uses[pid] != v {
-		return v, "?"
-	}
-	cond, ok := f.Cond.(*ast.BinaryExpr)
-	if !ok {
-		return v, "?"
-	}
-	cid, ok := cond.X.(*ast.Ident)
-	if !ok || info.Uses[cid] != v {
+	op := cond.Op
+	switch {
+	case isV(cond.X):
+	case isV(cond.Y):
+		op = opsFlip(op) // n > i
+	default:
 		return v, "?"
 	}
 	switch {
-	case post.Tok == token.INC && (cond.Op == token.LSS || cond.Op == token.LEQ):
+	case step > 0 && (op == token.LSS || op == token.LEQ || op == token.NEQ):
 		return v, "ascending"
-	case post.Tok == token.DEC && (cond.Op == token.GEQ || cond.Op == token.GTR):
+	case step < 0 && (op == token.GEQ || op == token.GTR || op == token.NEQ):
 		return v, "descending"
 	}
 	return v, "?"
@@ -155,14 +198,21 @@ func (en *eoEngine) walkFunc(c *Ctx, g *opsEng, fd *ast.FuncDecl, astPkg *types.
 	if len(roots) == 0 {
 		return
 	}
-	// index-loop variables
-	loopVar := map[types.Object]*ast.ForStmt{}
+	// index-loop variables: the counter of a for loop, the key of a range loop
+	loopVar := map[types.Object]ast.Stmt{}
 	ast.Inspect(fd.Body, func(n ast.Node) bool {
-		if f, ok := n.(*ast.ForStmt); ok {
+		switch f := n.(type) {
+		case *ast.ForStmt:
 			if v, dir := eoLoopDir(info, f); v != nil {
 				loopVar[v] = f
 				if en.loops[f] == nil {
 					en.loops[f] = &eoLoop{fn: fd, stmt: f, dir: dir}
+				}
+			}
+		case *ast.RangeStmt:
+			if id, ok := f.Key.(*ast.Ident); ok && f.Tok == token.DEFINE && id.Name != "_" {
+				if v := info.Defs[id]; v != nil {
+					loopVar[v] = f
 				}
 			}
 		}
@@ -213,12 +263,21 @@ func (en *eoEngine) walkFunc(c *Ctx, g *opsEng, fd *ast.FuncDecl, astPkg *types.
 				return nil
 			}
 			r := b.clone()
-			if id, ok := x.Index.(*ast.Ident); ok {
-				if f := loopVar[info.Uses[id]]; f != nil {
-					r.loops = append(r.loops, f)
-					if l := en.loops[f]; l != nil && l.list == nil {
-						l.list = b
+			// the index is (computed from) a loop variable: xs[i], xs[i-1], xs[len(xs)-1-i] is not distinguished
+			// from xs[i] — the direction of the loop is what is judged
+			var f ast.Stmt
+			ast.Inspect(x.Index, func(n ast.Node) bool {
+				if id, ok := n.(*ast.Ident); ok && f == nil {
+					if lf := loopVar[info.Uses[id]]; lf != nil {
+						f = lf
 					}
+				}
+				return f == nil
+			})
+			if f != nil {
+				r.loops = append(r.loops, f)
+				if l := en.loops[f]; l != nil && l.list == nil {
+					l.list = b
 				}
 			}
 			return r
@@ -271,6 +330,7 @@ func (en *eoEngine) walkFunc(c *Ctx, g *opsEng, fd *ast.FuncDecl, astPkg *types.
 						}
 						if !dup {
 							en.orig[p] = append(en.orig[p], o)
+							en.origFn[p] = append(en.origFn[p], fd.Name.Name)
 						}
 					}
 				}
@@ -524,6 +584,7 @@ func ruleEvalOrder(c *Ctx) []Obligation {
 	for _, en := range engines {
 		en.loops = map[ast.Stmt]*eoLoop{}
 		en.orig = map[types.Object][]string{}
+		en.origFn = map[types.Object][]string{}
 		for _, fd := range AllFuncDecls(c.Pkg(en.rel)) {
 			en.walkFunc(c, g, fd, astPkg)
 		}
@@ -538,26 +599,51 @@ func ruleEvalOrder(c *Ctx) []Obligation {
 		seenKey := map[string]int{}
 		for _, l := range ls {
 			origin := en.resolveOrigin(l)
-			key := fmt.Sprintf("%s.%s|loop over %s", en.name, l.fn.Name.Name, origin)
-			seenKey[key]++
-			if seenKey[key] > 1 {
-				key += fmt.Sprintf("#%d", seenKey[key])
+			// where the obligation is keyed and which lists it concerns. A loop is keyed by the function it
+			// stands in. A loop over a bare slice parameter that does NOT run first-to-last is reported once per
+			// call site instead, under the key it would have if it were written in the calling function: the
+			// finding keeps its key when the loop is extracted into (or merged with another one in) a helper.
+			type site struct{ fn, origin string }
+			sites := []site{{l.fn.Name.Name, origin}}
+			perOrigin := []string{origin}
+			if l.list != nil && l.list.owner == nil && len(l.list.path) == 0 {
+				if os := en.orig[l.list.root]; len(os) > 0 {
+					perOrigin = os
+					if l.dir != "ascending" {
+						sites = sites[:0]
+						for i, o := range os {
+							sites = append(sites, site{en.origFn[l.list.root][i], o})
+						}
+					}
+				}
 			}
-			o := Obligation{Key: key, Pos: c.Pos(l.stmt.Pos()), Nontrivial: true}
-			switch l.dir {
-			case "ascending":
-				o.Status, o.Detail = Discharged, "elements evaluated first-to-last"
-			case "descending":
-				o.Status = Violated
-				o.Detail = fmt.Sprintf("the loop runs from the last element of %s down to the first and evaluates each element in its body: the elements' side effects happen in reverse source order", origin)
-			default:
-				o.Status, o.Detail = Undecided, "direction of the index loop not recognised (init/cond/post shape)"
+			for _, sc := range sites {
+				key := fmt.Sprintf("%s.%s|loop over %s", en.name, sc.fn, sc.origin)
+				seenKey[key]++
+				if seenKey[key] > 1 {
+					key += fmt.Sprintf("#%d", seenKey[key])
+				}
+				o := Obligation{Key: key, Pos: c.Pos(l.stmt.Pos()), Nontrivial: true}
+				switch l.dir {
+				case "ascending":
+					o.Status, o.Detail = Discharged, "elements evaluated first-to-last"
+				case "descending":
+					o.Status = Violated
+					o.Detail = fmt.Sprintf("the loop runs from the last element of %s down to the first and evaluates each element in its body: the elements' side effects happen in reverse source order", sc.origin)
+				default:
+					o.Status, o.Detail = Undecided, "direction of the index loop not recognised (init/cond/post shape)"
+				}
+				if sc.fn != l.fn.Name.Name {
+					o.Detail += fmt.Sprintf(" (loop in %s.%s, called from %s with this list)", en.name, l.fn.Name.Name, sc.fn)
+				}
+				obs = append(obs, o)
 			}
-			obs = append(obs, o)
-			if byOrigin[origin] == nil {
-				byOrigin[origin] = map[string][]loopRow{}
+			for _, og := range perOrigin {
+				if byOrigin[og] == nil {
+					byOrigin[og] = map[string][]loopRow{}
+				}
+				byOrigin[og][en.name] = append(byOrigin[og][en.name], loopRow{en, l, og})
 			}
-			byOrigin[origin][en.name] = append(byOrigin[origin][en.name], loopRow{en, l, origin})
 		}
 	}
 	// sibling agreement of loop directions
